@@ -23,7 +23,7 @@ EXPLANATION = ('Path rules over the CFGs of all template instantiations of the t
                'the step length l along every path of every get() against the number of units that passed their test, and a '
                'constant inequality over the lead-byte tables.  Which scalar a well-formed sequence decodes to is a run-time value '
                'and is not decided.')
-FLOORS = {'VALIDATEFIRST': 9, 'CONTGUARD': 3, 'ADVANCEBOUND': 3, 'LEADREJECT': 2, 'ITERSTEP': 2}
+FLOORS = {'VALIDATEFIRST': 11, 'CONTGUARD': 3, 'ADVANCEBOUND': 3, 'LEADREJECT': 2, 'ITERSTEP': 2}
 
 
 def _uniq(fns):
@@ -428,9 +428,115 @@ def utf32range(run, fx):
         run.held('LEADREJECT', inst, fn.where(), '%d value classes (cut points %s, masks %s)' % (n, sorted(hex(c_) for c_ in cuts), sorted(hex(m) for m in masks)))
 
 
+def countexact(run, fx):
+    """C11's statement itself, for the two encodings whose decoders only COMPARE code units while counting (UTF-16, UTF-32): the
+    instantiation of count_unicode_chars with its iterator, reference proxy, codec get / validate all inlined from their own CFGs is
+    interpreted (rules/ordint.py) on every buffer of 0..3 code units, each unit taking a representative of every class the decoders
+    distinguish (NUL, ordinary, lead / trail surrogate boundaries, beyond U+10FFFF), with a buffer end and -- for NUL-terminated texts --
+    without one.  Checked against an independent statement of the encoding: no unit outside the buffer is read; well-formed text that
+    does not end in a truncated pair gives the exact count and *pError == NULL; ill-formed text reports an error; a reported error
+    points inside the buffer and the count does not exceed the well-formed characters before the first ill-formed sequence.
+    (UTF-8 decoding does arithmetic on the bytes; it is covered by CONTGUARD / LEADREJECT / ADVANCEBOUND, not here.)"""
+    import itertools
+    from . import ordint as O
+    fns = _uniq(fx.fns_named('(anonymous namespace)::count_unicode_chars'))
+    specs = {
+        16: ('const unsigned short', [0, 0x41, 0xD7FF, 0xD800, 0xDBFF, 0xDC00, 0xDFFF, 0xE000]),
+        32: ('const unsigned int', [0, 0x41, 0xD800, 0xDFFF, 0x10FFFF, 0x110000, 0xFFFFFFFF]),
+    }
+
+    def parse(w, units):
+        """(count of well-formed characters before the first NUL / ill-formed sequence / end, index of the first ill-formed sequence or None)"""
+        i, cnt = 0, 0
+        while i < len(units):
+            u = units[i]
+            if u == 0:
+                return cnt, None
+            if w == 32:
+                if u >= 0x110000:
+                    return cnt, i
+                cnt, i = cnt + 1, i + 1
+                continue
+            if u < 0xD800 or u > 0xDFFF:
+                cnt, i = cnt + 1, i + 1
+            elif u <= 0xDBFF:
+                if i + 1 < len(units) and 0xDC00 <= units[i + 1] <= 0xDFFF:
+                    cnt, i = cnt + 1, i + 2
+                else:
+                    return cnt, i
+            else:
+                return cnt, i
+        return cnt, None
+
+    for w, (ctype, reps) in specs.items():
+        fn = [f for f in fns if ctype in f.qt]
+        inst = 'gr_count_unicode_characters is exact and bounded for UTF-%d' % w
+        if len(fn) != 1:
+            run.broken('VALIDATEFIRST', inst, 'the count_unicode_chars instantiation for %s was not found' % ctype)
+            continue
+        fn = fn[0]
+        IT = 'graphite2::_utf_iterator<%s>::' % ctype
+        cases, prob = 0, None
+        try:
+            for n in range(0, 4):
+                for units in itertools.product(reps, repeat=n):
+                    for with_last in (True, False):
+                        if not with_last and 0 not in units:
+                            continue               # without a buffer end the text must be NUL-terminated (the API contract)
+                        vec = O.Vec([O.Lz([u]) for u in units])
+                        first = O.Rec()
+                        first[IT + 'cp'], first[IT + 'sl'] = O.It(vec, 0), 1
+                        last = O.Rec()
+                        last[IT + 'cp'], last[IT + 'sl'] = (O.It(vec, n) if with_last else O.Ptr(None)), 1
+                        errv = O.Vec(['unset'])
+                        it = O.Interp(fx, natives={'abs': lambda i_, f_, e_, o_, a_: abs(i_.rv(a_[0]))})
+                        it.lz_arith_ok = True        # the decoded value of a surrogate pair is only tested against 0 here, and it is >= 0x10000 for every pair
+                        it.MAX_STEPS = 6000
+                        desc = 'UTF-%d units [%s]%s' % (w, ' '.join('%04X' % u for u in units), ' with buffer end' if with_last else ' NUL-terminated, no buffer end')
+                        try:
+                            r = it.call(fn, None, [first, last, O.It(errv, 0)])
+                        except O.Violation as v:
+                            prob = '%s: %s (%s)' % (desc, v.what, v.loc)
+                            break
+                        cases += 1
+                        e_ = errv.items[0]
+                        if isinstance(e_, O.Ptr) and e_.rec is None:
+                            e_ = 0
+                        reported = not (isinstance(e_, int) and e_ == 0)
+                        cnt, bad = parse(w, list(units))
+                        text_end = list(units).index(0) if 0 in units else n
+                        trunc_tail = with_last and w == 16 and n > 0 and 0xD800 <= units[-1] <= 0xDBFF
+                        if bad is None and not trunc_tail:
+                            if r != cnt or reported:
+                                prob = '%s: well-formed text of %d character(s), but the count is %r and *pError is %s' % (desc, cnt, r, 'set' if reported else 'NULL')
+                                break
+                        if bad is not None and not reported:
+                            prob = '%s: the sequence at unit %d is ill-formed but no error is reported (count %r)' % (desc, bad, r)
+                            break
+                        if reported:
+                            if not (isinstance(e_, O.It) and e_.vec is vec and 0 <= e_.idx < max(n, 1) and n > 0):
+                                prob = '%s: *pError = %s does not point inside the buffer' % (desc, ('unit %d' % e_.idx) if isinstance(e_, O.It) else repr(e_))
+                                break
+                            if not isinstance(r, int) or r > cnt:
+                                prob = '%s: an error is reported with count %r, more than the %d well-formed character(s) before the first ill-formed sequence' % (desc, r, cnt)
+                                break
+                    if prob:
+                        break
+                if prob:
+                    break
+        except AnalysisBroken as ex:
+            run.broken('VALIDATEFIRST', inst, str(ex), fn.where())
+            continue
+        if prob:
+            run.violated('VALIDATEFIRST', inst, fn.where(), prob)
+        else:
+            run.held('VALIDATEFIRST', inst, fn.where(), '%d abstract executions: buffers of 0..3 units over unit classes %s' % (cases, ['%X' % u for u in reps]))
+
+
 def run(run):
     fx = run.facts('Q0')
     validatefirst(run, fx)
+    countexact(run, fx)
     validateback(run, fx)
     contguard(run, fx)
     advancebound(run, fx)
